@@ -188,13 +188,19 @@ def safe_at(pre, post, got):
     return None
 
 def classify(opsdone, allops, why):
-    """signature of an unsafe crash point (decision list over the position in the operation sequence)"""
+    """signature of an unsafe crash point: WHERE in the operation sequence the crash fell, and — when the node does not even start from what
+    the crash left (the recorded findings, except the reclaiming one, are about wrong VALUES, not about a start-up that fails) — that it did not"""
+    c = classify_position(opsdone, allops, why)
+    if why.startswith("start-fails") and not c.startswith("reclaim-deletes-old-values-first") and not c.startswith("other:"): return c + ":start-fails"
+    return c
+
+def classify_position(opsdone, allops, why):
     n = len(opsdone)
     kinds = [o[0] for o in allops]
     done_files = [(o[0], o[1]) for o in opsdone]
     if any(k == "unlink" and f.endswith(".values.old") for k, f in done_files) and not all_value_appends_done(opsdone, allops):
         return "reclaim-deletes-old-values-first"
-    if any(k == "rename" and f.endswith(".keys") for k, f in done_files) and not all_value_appends_done(opsdone, allops):
+    if any(k == "rename" and (f.endswith(".keys") or f.endswith(".values")) for k, f in done_files) and not all_value_appends_done(opsdone, allops):
         return "reclaim-deletes-old-values-first"
     # in-place update half done: version written, offset not
     if n > 0 and opsdone[-1][0] == "pwrite" and opsdone[-1][1].endswith(".keys") and len(opsdone[-1][3]) == 4 and n < len(allops):
@@ -277,7 +283,9 @@ def main(tier, seed):
             got_lines = loaddump_lines(dest)
             got = snap_dataset(got_lines) if "R PANIC restart" not in got_lines else None
             why = safe_at(pre_ds, post, got) if pre_ds is not None else None
-            # previously persisted data exists only when an earlier snapshot completed
+            # previously persisted data exists only when an earlier snapshot completed — but a node that does not START from what the crash
+            # left loses every database it had (the start-up loads them all or none): that is damage whatever this database held before
+            if pre_ds is None and "R PANIC restart" in got_lines: why = "start-fails: the node does not start from the files the crash left"
             mrest, mdump = mloads[n] if n < len(mloads) else ([], [])
             mgot = snap_dataset(mdump) if "R PANIC restart" not in mrest else None
             agree = (strip_ops(got) == strip_ops(mgot))
